@@ -544,6 +544,20 @@ func GenPar(r *Rand, name string, o GenOpts) *Program {
 		p.Bare, p.Wrap = true, false
 		p.BareMix = r.PickInt(0, 2, 3, 4)
 	}
+	if !p.Bare && !p.Generic && o.ImportPct > 0 && p.nameOffset()%100 < o.ImportPct {
+		// Task/Tasks functions (no parameters of the program's own types) that
+		// live in the helper package ha
+		moved := false
+		for i := range pr.Items {
+			for k := range pr.Items[i].Fns {
+				if fn := &pr.Items[i].Fns[k]; pr.Items[i].Coll == nil && (p.nameOffset()/100+fn.ID)%2 == 0 {
+					fn.Spell = SpImport
+					moved = true
+				}
+			}
+		}
+		_ = moved
+	}
 	g.finish()
 	return p
 }
